@@ -10,7 +10,8 @@ git -C /repo worktree add -q --detach "$wt" HEAD || exit 2
 if ! git -C "$wt" apply "$d/patch.diff"; then echo "$tag: patch does not apply"; git -C /repo worktree remove --force "$wt"; exit 2; fi
 rsync -a --exclude .git --exclude .work --exclude replays /verif/ "$vc/"
 mkdir -p "$vc/.work"
-VERIF_ROOT="$vc" VERIF_REPO="$wt" "$vc/check" $pid --tier $tier > "/verif/.work/seeded_$tag.log" 2>&1; rc=$?
+VERIF_ROOT="$vc" VERIF_REPO="$wt" timeout 2400 "$vc/check" $pid --tier $tier > "/verif/.work/seeded_$tag.log" 2>&1; rc=$?
+[ $rc = 124 ] && echo "CHECK-TIMEOUT" >> "/verif/.work/seeded_$tag.log"
 mkdir -p /verif/.work/seeded_replays
 cp "$vc"/replays/$pid/*.json /verif/.work/seeded_replays/ 2>/dev/null
 echo "$tag property=$pid rc=$rc :: $(grep '^VIOLATION' /verif/.work/seeded_$tag.log | head -1 | sed "s#$vc#/verif#") :: $(grep -m1 'tier=' /verif/.work/seeded_$tag.log | cut -c1-200)"
